@@ -89,7 +89,7 @@ Proof. intros. unfold str_time. rewrite !fmtw2 by lia. cbn [app]. repeat eexists
 (* any non-empty zone abbreviation (Go prints one for every instant): the civil reading comes back *)
 Theorem datetime_roundtrip14 y m d h mi s abbr : datetime_dom y m d h mi s = true -> abbr <> [] ->
   exists t, datetime_to (VL [VZ y; VZ m; VZ d; VZ h; VZ mi; VZ s]) abbr = Some t
-            /\ datetime_of t = Some (VL [VZ y; VZ m; VZ d; VZ h; VZ mi; VZ s]).
+            /\ datetime_of abbr t = DOk (VL [VZ y; VZ m; VZ d; VZ h; VZ mi; VZ s]).
 Proof.
   unfold datetime_dom, date_dom. intros H Ha.
   apply andb_prop in H as [H V]. apply andb_prop in H as [H T]. apply andb_prop in H as [H P]. apply andb_prop in H as [R D].
@@ -107,14 +107,14 @@ Proof.
     destruct (str_date_len y m d) as (a1&a2&a3&a4&a5&a6&a7&a8&a9&a10&SD); try (unfold zn in *; lia).
     destruct (str_time_len h mi s) as (b1&b2&b3&b4&b5&b6&b7&b8&ST); try (unfold zn in *; lia).
     rewrite SD, ST in *. destruct abbr as [|c abbr]; [contradiction|].
-    cbn [app datetime_of firstn skipn nth_error]. rewrite PD, PT. reflexivity.
+    cbn [app datetime_of firstn skipn nth_error]. rewrite PD, PT. now rewrite nlist_eqb_refl.
 Qed.
 
 (* a syntactically complete date-time whose date or time of day is impossible is refused, whatever follows it *)
 Theorem datetime_rejects (dte tme rest : list N) c : length dte = 10%nat -> length tme = 8%nat ->
-  parse_date10 dte = None \/ parse_time8 tme = None -> datetime_of (dte ++ c :: tme ++ rest) = None.
+  parse_date10 dte = None \/ parse_time8 tme = None -> forall inforce, datetime_of inforce (dte ++ c :: tme ++ rest) = DErr.
 Proof.
-  intros Ld Lt H.
+  intros Ld Lt H inforce.
   do 10 (destruct dte as [|? dte]; [discriminate Ld|]). destruct dte; [|discriminate Ld].
   do 8 (destruct tme as [|? tme]; [discriminate Lt|]). destruct tme; [|discriminate Lt].
   cbn [app datetime_of firstn skipn nth_error]. destruct H as [H|H]; rewrite H.
@@ -219,15 +219,19 @@ Theorem tasktype_numbers : forall n : Z, ((n <= 0 \/ 14 <= n)%Z -> tasktype_of_n
 Proof. intros n. split; [exact (tasktype_rejects_num n)|exact (tasktype_accepts_num n)]. Qed.
 
 (* ---------- firmware version, MAC address ---------- *)
-Definition version_ok (n : Z) : bool :=
-  match version_to (VZ n) with Some s => match version_of s with Some (VZ a) => (a =? n)%Z | _ => false end | None => false end.
-Lemma version_enum : forallb version_ok (zlist 0%Z 65536%Z) = true.
+Lemma unhex_hexd_enum : forallb (fun d => match unhex (hexd d) with Some x => x =? d | None => false end) (map N.of_nat (seq 0 16)) = true.
 Proof. vm_compute. reflexivity. Qed.
+Lemma unhex_hexd d : d < 16 -> unhex (hexd d) = Some d.
+Proof.
+  intros H. assert (In d (map N.of_nat (seq 0 16))) as HIn.
+  { apply in_map_iff. exists (N.to_nat d). split; [apply N2Nat.id|apply in_seq; lia]. }
+  pose proof (proj1 (forallb_forall _ _) unhex_hexd_enum d HIn) as E. cbn beta in E.
+  destruct (unhex (hexd d)) as [x|]; [|discriminate E]. apply N.eqb_eq in E. now subst.
+Qed.
 Theorem version_roundtrip n : (0 <= n < 65536)%Z -> exists s, version_to (VZ n) = Some s /\ version_of s = Some (VZ n).
 Proof.
-  intros H. pose proof (proj1 (forallb_forall _ _) version_enum n (in_zlist 0%Z 65536%Z n ltac:(lia))) as E.
-  unfold version_ok in E. destruct (version_to (VZ n)) as [s|]; [|discriminate E]. exists s. split; [reflexivity|].
-  destruct (version_of s) as [[a| |]|]; try discriminate E. assert (a = n)%Z as -> by lia. reflexivity.
+  intros H. eexists. split; [reflexivity|]. unfold version_of.
+  rewrite !unhex_hexd by lia. f_equal. f_equal. lia.
 Qed.
 
 Definition hexbyte_ok (b : N) : bool :=
@@ -352,17 +356,17 @@ Proof.
     do 10 (destruct s as [|? s]; [discriminate H|]). destruct s; [|discriminate H].
     cbn [must_reject] in H. repeat (apply andb_prop in H as [H ?]).
     repeat match goal with E : (_ =? 45) = true |- _ => apply N.eqb_eq in E; subst end.
-    cbn [of_json]. rewrite date_rejects; [reflexivity|]. now apply negb_true_iff.
+    unfold of_json; cbn [of_json_a]. rewrite date_rejects; [reflexivity|]. now apply negb_true_iff.
   - (* HH:mm *) destruct j as [s| | | | |]; try discriminate H.
     do 5 (destruct s as [|? s]; [discriminate H|]). destruct s; [|discriminate H].
     cbn [must_reject] in H. repeat (apply andb_prop in H as [H ?]).
     repeat match goal with E : (_ =? 58) = true |- _ => apply N.eqb_eq in E; subst end.
-    cbn [of_json]. now rewrite hhmm_rejects_chars.
+    unfold of_json; cbn [of_json_a]. now rewrite hhmm_rejects_chars.
   - (* PIN *) destruct j as [s| | | | |]; try discriminate H. cbn [must_reject] in H. apply andb_prop in H as [_ H].
-    cbn [of_json]. rewrite pin_rejects; [reflexivity|]. now apply Nat.ltb_lt.
-  - (* control state *) destruct j as [s| | | | |]; try discriminate H. cbn [must_reject] in H. cbn [of_json]. unfold control_of.
+    unfold of_json; cbn [of_json_a]. rewrite pin_rejects; [reflexivity|]. now apply Nat.ltb_lt.
+  - (* control state *) destruct j as [s| | | | |]; try discriminate H. cbn [must_reject] in H. unfold of_json; cbn [of_json_a]. unfold control_of.
     apply negb_true_iff in H. apply orb_false_iff in H as [H C]. apply orb_false_iff in H as [A B]. now rewrite A, B, C.
-  - (* task type *) destruct j as [|n| | | |]; try discriminate H. cbn [must_reject] in H. cbn [of_json].
+  - (* task type *) destruct j as [|n| | | |]; try discriminate H. cbn [must_reject] in H. unfold of_json; cbn [of_json_a].
     rewrite tasktype_rejects_num; [reflexivity|lia].
 Qed.
 
